@@ -1,6 +1,7 @@
 """Checks C03 C04 C05 C07 C08 C10 C11 C12 C15 C17 C18."""
 import itertools
 import math
+import os
 
 from . import common as C
 from . import gen, ref
@@ -116,6 +117,12 @@ class C04(Check):
                 # the caller's containers are outputs: whatever shape they arrive in, they leave as the best realization's factors
                 runs["real%d" % k].vshape = rng.choice([1, 2, 3, 4])
                 runs["real%d" % k].ushape = rng.choice([0, 1, 2, 3])
+            if k % 3 == 0 and runs["real%d" % k].lt == "u" and runs["real%d" % k].wt == "u":
+                # a generator that returns chosen draws: values at and below 1e-6 (entries the updates never touch), zero,
+                # values next to one
+                nd = rng.randint(5, 37)
+                runs["real%d" % k].draws = [rng.choice([0.0, 1e-7, 5e-7, 1e-6, 9.99e-7, 0.9999999]) if rng.random() < 0.3 else rng.random()
+                                            for _ in range(nd)]
         # scripted runs: the whole selection logic is independent of the numbers -> compared strictly;
         # real runs: the model's numbers are compared under the locality rule (drift), the monitor decides
         scripted = {c: rc for c, rc in runs.items() if rc.script}
@@ -1086,6 +1093,9 @@ def _c12_cli_relabel(self, rng):
         recs, L = gen.records(rng, wt="u", N=rng.randint(3, 6))
         labs = gen.first_appearance(recs)
         pool = [2 ** 31, 2 ** 31 + 7, 2 ** 32, 2 ** 32 + 5, 3000000000, 10 ** 12, 2 ** 62, 2 ** 63 + 11, 4, 99]
+        if k % 2:
+            # composite ids (shard << 32 | local): different labels that agree in their low 32 bits, or in their high ones
+            pool = [101, 2 ** 32 + 101, 2 ** 33 + 101, 7, 2 ** 32 + 7, 5 * 2 ** 32 + 7, 2 ** 40 + 3, 2 ** 40 + 2 ** 32 + 3, 2 ** 63 + 101, 2 ** 32]
         mp = dict(zip(labs, rng.sample(pool, len(labs))))
         recs2 = [(mp[s], mp[d], ws) for s, d, ws in recs]
         argv = ["--k", str(K), "--s", "17", "--maxit", "6"] + ([] if directed else ["--undirected"]) + (["--assortative"] if assort else [])
@@ -1487,7 +1497,39 @@ class C18(Check):
     pid = "C18"
     lean_modules = ["MTProps.C18"]
 
+    def big_tensors(self):
+        """tensors with 2^32 elements and more (one byte each, 4.3 GB; unsanitized build of harness/bigidx.cpp): the
+        theorem is for all dimensions, the exhaustive accessor correspondence stops at 6"""
+        import subprocess
+        import tempfile
+        exe = os.path.join(tempfile.mkdtemp(prefix="bigidx"), "bigidx")
+        r = C.run(["g++", "-std=c++17", "-O1", "-I" + os.path.join(C.REPO, "include"), os.path.join(C.VERIF, "harness", "bigidx.cpp"), "-o", exe])
+        if r.returncode != 0:
+            self.corr_broken.append(("bigidx", "-", "-", "harness/bigidx.cpp does not compile against the tree:\n" + r.stdout[-1500:], ""))
+            return
+        try:
+            p = subprocess.run([exe], stdout=subprocess.PIPE, stderr=subprocess.STDOUT, text=True, timeout=600)
+            out, rc = p.stdout, p.returncode
+        except subprocess.TimeoutExpired:
+            out, rc = "TIMEOUT", -999
+        finally:
+            import shutil
+            shutil.rmtree(os.path.dirname(exe), ignore_errors=True)
+        self.cov["evaluations"] += 3
+        self.monitor("tensors of 2^32 elements and more probed", 3)
+        if rc != 0:
+            bad = [l for l in out.splitlines() if not l.endswith(": ok")]
+            self.violate("layout-beyond-2^32", "; ".join(bad[:3]) or "probe aborted (status %s)" % rc,
+                         {"program": "harness/bigidx.cpp (g++ -O1, no sanitizers)", "output": out[-1500:]})
+
+    def search(self):
+        self.big_tensors()
+        Check.search(self)
+
     def body(self):
+        if self.tier == "thorough" and not getattr(self, "_big_done", False):
+            self._big_done = True
+            self.big_tensors()
         # where the initialiser puts the entries of a caller-supplied tensor (every call of a functor object, not only the first)
         init_functor_stage(self, "initial-tensor-entries-misplaced", ["f"])
         D = 6
